@@ -17,6 +17,8 @@ Steps ==
   \cup {[op |-> "set", obj |-> o, field |-> f, ival |-> v] : o \in Objs, f \in {"allow", "require", "exclude"}, v \in {0, 4}}
   \cup {[op |-> "set", obj |-> o, field |-> "requireSets", sets |-> s] : o \in Objs, s \in {<<>>, <<<<97, 32, 98>>>>, <<<<97>>, <<98>>>>}}
   \cup {[op |-> "set", obj |-> o, field |-> "excludeChars", cps |-> c] : o \in Objs, c \in {<<>>, Digits10}}
+  \* the caller configures another attempt limit (Process!SetLimits): the refusal decision of the next call follows it
+  \cup {[op |-> "setlimits", obj |-> 0, ival |-> v] : v \in {5, 200, 2000}}
 RECURSIVE SeqsOver(_,_)
 SeqsOver(S, n) == IF n = 0 THEN {<<>>} ELSE SeqsOver(S, n-1) \cup {Append(s, x) : s \in {t \in SeqsOver(S, n-1) : Len(t) = n-1}, x \in S}
 \* only histories that contain a call followed later by an update or another call (the others say nothing about history)
